@@ -8,6 +8,37 @@ from .c10 import _selfcheck
 LEVEL = "model_checking"
 
 
+def _apalache_carry_lemma(ctx):
+    """Optional strengthening (DESIGN.md section 6, C11): the byte-wise carry loop of raw_ctr.c at the REAL byte base 256 as a transition system
+    (spec/apalache/CtrCarryApa.tla) with an inductive invariant discharged by Apalache (symbolic: every byte vector of the width) - base case,
+    inductive step and invariant => result, for counter widths 1..3 and both byte orders.  TLC's exhaustive run covers the scaled-down loop
+    (base 4); this covers base 256.  Reported only: an obligation that does not finish within its timeout is recorded as such and is not a
+    failure of the check; a refuted obligation is a machinery failure (it concerns the model, not the code)."""
+    import os
+    import subprocess
+    import tempfile
+    d = os.path.join(tlc.SPEC, "apalache")
+    res = []
+    for w, le in ((1, "FALSE"), (1, "TRUE"), (2, "FALSE"), (2, "TRUE"), (3, "FALSE")):
+        for name, args, tmo in (("Init => IndInv", ["--init=Init", "--inv=IndInv", "--length=0"], 300),
+                                ("IndInv /\\ Next => IndInv'", ["--init=IndInit", "--inv=IndInv", "--length=1"], 900 if w < 3 else 1500),
+                                ("IndInv => Result", ["--init=IndInit", "--inv=Result", "--length=0"], 300)):
+            out = tempfile.mkdtemp(prefix="apa", dir=os.environ.get("VERIF_WORK", "/var/tmp"))
+            try:
+                p = subprocess.run(["apalache-mc", "check"] + args + ["--out-dir=" + out, "MC_CtrCarry_%d_%s.tla" % (w, le)], cwd=d, stdout=subprocess.PIPE,
+                                   stderr=subprocess.STDOUT, text=True, timeout=tmo)
+                verdict = "discharged" if "EXITCODE: OK" in p.stdout else "refuted-or-error"
+                tail = p.stdout[-600:]
+            except subprocess.TimeoutExpired:
+                verdict, tail = "no answer within %d s" % tmo, ""
+            finally:
+                subprocess.run(["rm", "-rf", out])
+            res.append({"width_bytes": w, "little_endian": le == "TRUE", "obligation": name, "verdict": verdict})
+            if verdict == "refuted-or-error":
+                raise RuntimeError("Apalache refuted (or failed on) %s for W=%d little_endian=%s:\n%s" % (name, w, le, tail))
+    ctx.extra["apalache_ctr_carry_lemma_base_256"] = res
+
+
 def run(ctx):
     quick = ctx.tier == "quick"
     rnd = random.Random(ctx.seed)
@@ -15,6 +46,8 @@ def run(ctx):
     #    overflow raised exactly at the limit (every initial value, both endiannesses, counter passing through zero)
     for cfg in ("CtrCounter_LE_W1.cfg", "CtrCounter_BE_W1.cfg", "CtrCounter_LE_W2.cfg", "CtrCounter_BE_W2.cfg"):
         ctx.mc("CtrCounter", cfg, workers=8)
+    if not quick:
+        _apalache_carry_lemma(ctx)
     ctx.mc("ChaChaStream", "ChaChaStream_sticky.cfg", workers=4)
     ctx.mc("ChaChaStream", "ChaChaStream_twoword.cfg", workers=4)        # 8-byte nonce: two counter words, the carry is +1 on the whole counter
     # the code as pinned before the fix (counter wraps after the error) must be separated by the same model
